@@ -16,8 +16,10 @@ def sh(cmd, cwd, timeout=1200):
 
 
 def main(props):
+    base = os.environ.get("SEED_WT", "/tmp/wt")
+    off = int(os.environ.get("SEED_OFFSET", "0"))
     for p in props:
-        wt = "/tmp/wt/%s" % p
+        wt = "%s/%s" % (base, p)
         for n in (1, 2):
             patch = os.path.join(wt, "_seeded", "patch%d.diff" % n)
             demo = os.path.join(wt, "_seeded", "demo%d.py" % n)
@@ -38,7 +40,7 @@ def main(props):
             if not ok:
                 print("   ", (out1 if rc1 != 1 else outt if rct else out0)[-400:].replace("\n", " | "))
                 continue
-            dst = os.path.join(ROOT, "seeded", "%s-%d" % (p, n))
+            dst = os.path.join(ROOT, "seeded", "%s-%d" % (p, n + off))
             os.makedirs(dst, exist_ok=True)
             shutil.copy(patch, os.path.join(dst, "patch.diff"))
             shutil.copy(demo, os.path.join(dst, "demo.py"))
